@@ -116,3 +116,24 @@ Definition check_utf := mismatches utf_ok.
 Definition wtf8rune_ok (c : bytes * Z * Z) : bool :=
   let '(b, r, w) := c in let '(mr, mw) := DecodeWTF8Rune b in (mr =? r) && (mw =? w).
 Definition check_wtf8rune := mismatches wtf8rune_ok.
+
+(* ---- property keys and member names ---- *)
+From V Require Import C01.Keys.
+(* (cfg, units, Go canPrintIdentifierUTF16) *)
+Definition canprint_ok (c : qcfg * list Z * bool) : bool :=
+  let '(cfg, u, g) := c in Bool.eqb (can_print_identifier_utf16 cfg u) g.
+Definition check_canprint := mismatches canprint_ok.
+(* printProperty string key: (cfg, preferQuoted, units, Go key bytes) *)
+Definition strkey_ok (c : qcfg * bool * list Z * bytes) : bool :=
+  let '(cfg, pq, u, gb) := c in
+  match print_string_key cfg pq u with Some b => zlist_eqb b gb | None => false end.
+Definition check_strkey := mismatches strkey_ok.
+(* specification side: the printed key denotes the same property key *)
+Definition strkey_spec_ok (c : qcfg * bool * list Z * bytes) : bool :=
+  let '(cfg, pq, u, gb) := c in value_is (key_value gb) u.
+Definition check_strkey_spec := mismatches strkey_spec_ok.
+(* EDot: (cfg, runes of the name, Go bytes after the target) *)
+Definition dot_ok (c : qcfg * list Z * bytes) : bool :=
+  let '(cfg, rs, gb) := c in
+  match print_dot_name cfg 4 rs with Some b => zlist_eqb b gb | None => false end.
+Definition check_dot := mismatches dot_ok.
